@@ -27,6 +27,8 @@ use radix_engine::vm::{OverridePackageCode, VmApi, VmInvoke};
 use radix_engine_interface::api::*;
 use radix_engine_interface::blueprints::package::*;
 use radix_engine_interface::prelude::*;
+use radix_blueprint_schema_init::*;
+use radix_common::prelude::basic_well_known_types::ANY_TYPE;
 use radix_native_sdk::modules::metadata::Metadata;
 use radix_native_sdk::modules::role_assignment::RoleAssignment;
 use radix_transactions::builder::ManifestBuilder;
@@ -317,7 +319,15 @@ impl Interp {
                         continue;
                     }
                     regs = tmp;
-                    let input = scrypto_encode(&(sub, owns, tags)).unwrap();
+                    let refs: Vec<GlobalAddress> = CTX.with(|c| {
+                        let c = c.borrow();
+                        let mut v: Vec<GlobalAddress> = vec![GlobalAddress::from(FAUCET)];
+                        v.extend(c.pkgs.iter().map(|p| GlobalAddress::from(*p)));
+                        v.extend(c.fixed_globals.iter().cloned());
+                        v.extend(c.new_globals.iter().cloned());
+                        v
+                    });
+                    let input = scrypto_encode(&(sub, owns, tags, refs)).unwrap();
                     let out = if op == 6 {
                         api.call_method(&target.unwrap(), "exec", input)?
                     } else {
@@ -387,7 +397,7 @@ impl VmInvoke for Interp {
                 Ok(IndexedScryptoValue::from_typed(&addr))
             }
             _ => {
-                let (script, owns, tags): (Vec<u8>, Vec<Own>, Vec<u8>) = input.as_typed().unwrap();
+                let (script, owns, tags, _refs): (Vec<u8>, Vec<Own>, Vec<u8>, Vec<GlobalAddress>) = input.as_typed().unwrap();
                 let regs: Vec<Option<(NodeId, Tag)>> = owns.into_iter().zip(tags).map(|(o, t)| Some((o.0, tag_of(t)))).collect();
                 let regs = match Interp::run(&script, regs, api) {
                     Ok(r) => r,
@@ -531,9 +541,12 @@ impl Runner for R {
             c.aborted = false;
         });
         let _ = &self.fixed;
+        let mut refs: Vec<GlobalAddress> = vec![GlobalAddress::from(FAUCET)];
+        refs.extend(self.pkgs.iter().map(|p| GlobalAddress::from(*p)));
+        refs.extend(self.fixed.iter().cloned());
         let manifest = ManifestBuilder::new()
             .lock_fee_from_faucet()
-            .call_function(self.pkgs[p], NAMES[b], "run", manifest_args!(script, Vec::<ManifestBucket>::new(), Vec::<u8>::new()))
+            .call_function(self.pkgs[p], NAMES[b], "run", manifest_args!(script, Vec::<ManifestBucket>::new(), Vec::<u8>::new(), refs))
             .try_deposit_entire_worktop_or_abort(self.account, None)
             .build();
         let receipt = self.ledger.execute_manifest(manifest, vec![]);
